@@ -283,6 +283,39 @@ pub fn structural_probes() -> Vec<Probe> {
         };
         v.push(Probe { name: format!("sink_program_{}", v.len()), class: "covariant-sink|program: &'gc T parked in the root through a GcBuilder".into(), negative: body("&String", "s.as_ref()", "&'gc String"), twin: body("&'static String", "&FIXED", "&'static String") });
     }
+    // every operation that takes a context (or another branded value) together with a pointer demands
+    // the same brand for both: a foreign arena's context must be rejected
+    let pairs: [(&str, &str, &str); 24] = [
+        ("GcWeak::upgrade", "mc: &Mutation<'b>, g: GcWeak<'a, u8>", "let _ = g.upgrade(mc);"),
+        ("Gc::write", "mc: &Mutation<'b>, g: Gc<'a, RefLock<u8>>", "let _ = Gc::write(mc, g);"),
+        ("Gc::unlock", "mc: &Mutation<'b>, g: Gc<'a, RefLock<u8>>", "let _ = g.unlock(mc);"),
+        ("GcRefLock::borrow_mut", "mc: &Mutation<'b>, g: Gc<'a, RefLock<u8>>", "let _ = g.borrow_mut(mc);"),
+        ("GcRefLock::try_borrow_mut", "mc: &Mutation<'b>, g: Gc<'a, RefLock<u8>>", "let _ = g.try_borrow_mut(mc);"),
+        ("GcLock::set", "mc: &Mutation<'b>, g: Gc<'a, Lock<u8>>", "g.set(mc, 1);"),
+        ("Gc<OnceLock>::set", "mc: &Mutation<'b>, g: Gc<'a, gc_arena::lock::OnceLock<u8>>", "let _ = g.set(mc, 1);"),
+        ("Gc<OnceLock>::get_or_init", "mc: &Mutation<'b>, g: Gc<'a, gc_arena::lock::OnceLock<u8>>", "let _ = g.get_or_init(mc, || 1);"),
+        ("backward_barrier parent", "mc: &Mutation<'b>, g: Gc<'a, ()>", "mc.backward_barrier(g, None);"),
+        ("backward_barrier child", "mc: &Mutation<'b>, g: Gc<'a, ()>, p: Gc<'b, ()>", "mc.backward_barrier(p, Some(g));"),
+        ("backward_barrier_weak child", "mc: &Mutation<'b>, g: GcWeak<'a, ()>, p: Gc<'b, ()>", "mc.backward_barrier_weak(p, g);"),
+        ("forward_barrier child", "mc: &Mutation<'b>, g: Gc<'a, ()>", "mc.forward_barrier(None, g);"),
+        ("forward_barrier parent", "mc: &Mutation<'b>, g: Gc<'a, ()>, c: Gc<'b, ()>", "mc.forward_barrier(Some(g), c);"),
+        ("forward_barrier_weak child", "mc: &Mutation<'b>, g: GcWeak<'a, ()>", "mc.forward_barrier_weak(None, g);"),
+        ("DynamicRootSet::stash set", "mc: &Mutation<'b>, g: DynamicRootSet<'a>, v: Gc<'b, i32>", "let _ = g.stash::<Rootable![i32]>(mc, v);"),
+        ("DynamicRootSet::stash value", "mc: &Mutation<'b>, g: DynamicRootSet<'b>, v: Gc<'a, i32>", "let _ = g.stash::<Rootable![i32]>(mc, v);"),
+        ("Gc::resurrect", "mc: &Finalization<'b>, g: Gc<'a, u8>", "Gc::resurrect(mc, g);"),
+        ("Gc::is_dead", "mc: &Finalization<'b>, g: Gc<'a, u8>", "let _ = Gc::is_dead(mc, g);"),
+        ("GcWeak::resurrect", "mc: &Finalization<'b>, g: GcWeak<'a, u8>", "let _ = g.resurrect(mc);"),
+        ("GcWeak::is_dead", "mc: &Finalization<'b>, g: GcWeak<'a, u8>", "let _ = g.is_dead(mc);"),
+        ("ZstCache::alloc", "mc: &Mutation<'b>, g: ZstCache<'a, 8>", "let _ = g.alloc(mc, ());"),
+        ("ZstCache::alloc_static", "mc: &Mutation<'b>, g: ZstCache<'a, 8>", "let _ = g.alloc_static(mc, ());"),
+        ("ZstCache::is_cached", "g: ZstCache<'a, 8>, p: Gc<'b, ()>", "let _ = g.is_cached(p);"),
+        ("Gc::ptr_eq", "g: Gc<'a, u8>, p: Gc<'b, u8>", "let _ = Gc::ptr_eq(g, p);"),
+    ];
+    for (n, args, body) in pairs {
+        let neg = format!("{PRELUDE}\nfn foreign<'a, 'b>({args}) {{ {body} }}\nfn main() {{}}\n");
+        let twin = format!("{PRELUDE}\nfn own<'a>({}) {{ {body} }}\nfn main() {{}}\n", args.replace("'b", "'a"));
+        v.push(Probe { name: format!("foreign_ctx_{}", v.len()), class: format!("foreign-context-accepted|{n}"), negative: neg, twin });
+    }
     // every pointer-to-pointer conversion keeps the brand of its operand: the result cannot be given
     // an unrelated brand `'b`
     let conv: [(&str, &str, &str, &str); 16] = [
